@@ -103,6 +103,10 @@ pub struct Case {
     pub init_time: f64,
     pub sim_days: Option<i32>,
     pub hash_seed: u64,
+    /// user-supplied initial front position (InitTrainState.offset), beyond the train length: the rear does
+    /// not start at the beginning of the path
+    #[serde(default)]
+    pub init_offset: Option<f64>,
 }
 
 // ------------------------------------------------------------------------------------------------
@@ -512,7 +516,17 @@ pub fn generate(rng: &mut Rng, focus: &str, thorough: bool) -> Case {
         init_time: if timed { 1000.0 } else if rng.chance(0.5) { 0.0 } else { Rng::round_sig(rng.range(0.0, 5000.0), 5) },
         sim_days: if rng.chance(0.5) { None } else { Some(*rng.pick(&[1, 7, 30])) },
         hash_seed: rng.next(),
+        init_offset: None,
     };
+    // initial front position beyond the train length, inside the first link of the route
+    if rng.chance(0.2) {
+        let tl = train_ref(&c.train, 0.0).length;
+        let first_len = c.links[c.route[0] as usize].length.value;
+        let room = (first_len - tl - 1.0).min(3000.0);
+        if room > 2.0 {
+            c.init_offset = Some(Rng::round_sig(tl + rng.range(1.0, room), 6));
+        }
+    }
     // train type from the case's own random bits (no extra draw); it selects the per-type restriction set
     c.train.train_type = crate::trk::type_from_bits(c.hash_seed >> 17);
     c
@@ -982,7 +996,7 @@ pub fn make_limit_sim(case: &Case) -> anyhow::Result<SpeedLimitTrainSim> {
     let mut lm: HashMap<String, Vec<Location>> = HashMap::new();
     lm.insert("A".into(), vec![loc("A", case.route[0])]);
     lm.insert("B".into(), vec![loc("B", *case.route.last().unwrap())]);
-    let its = InitTrainState::new(Some(case.init_time * uc::S), None, None);
+    let its = InitTrainState::new(Some(case.init_time * uc::S), case.init_offset.map(|o| o * uc::M), None);
     let tsb = TrainSimBuilder::new("t0".into(), tc, con, Some("A".into()), Some("B".into()), Some(its));
     tsb.make_speed_limit_train_sim(&lm, case.save_interval, case.sim_days, None)
 }
@@ -1017,7 +1031,7 @@ pub fn execute(case: &Case, ctx: &mut Ctx) {
                 Ok(t) => t,
                 Err(_) => return,
             };
-            let its = InitTrainState::new(Some(case.init_time * uc::S), None, Some(*v0 * uc::MPS));
+            let its = InitTrainState::new(Some(case.init_time * uc::S), case.init_offset.map(|o| o * uc::M), Some(*v0 * uc::MPS));
             let tsb = TrainSimBuilder::new("t0".into(), tc, con0.clone(), None, None, Some(its));
             let mut t = case.init_time;
             let mut times = vec![t];
@@ -1635,6 +1649,11 @@ pub fn shrink(case: &Case) -> Vec<Case> {
     if case.init_time != 0.0 {
         let mut c = case.clone();
         c.init_time = 0.0;
+        out.push(c);
+    }
+    if case.init_offset.is_some() {
+        let mut c = case.clone();
+        c.init_offset = None;
         out.push(c);
     }
     out
